@@ -351,6 +351,11 @@ pub fn run(o: Oracle, tier: Tier, seed: u64) -> i32 {
     });
     report.count("counter_mode_script_logins", n_scripts);
 
+    // sequences of logins on ONE thread: anything cached between logins (per thread or per process) and
+    // keyed too coarsely shows up when consecutive logins share part of their inputs
+    let seqs = login_sequences(&report, o, &cl, tier, seed);
+    report.count("login_sequences_on_one_thread", seqs);
+
     let real = cl.real_logins.load(Ordering::Relaxed);
     let refl = cl.ref_logins.load(Ordering::Relaxed);
     report.count("real_logins", real);
@@ -413,4 +418,121 @@ pub fn replay(o: Oracle, report: &Report, r: &serde_json::Value) {
         a: mc::util::unhex_n::<32>(&g(&c["a"])),
     };
     run_case(report, o, &Classes::new(), &case, true, true);
+}
+
+#[derive(Clone)]
+enum Step {
+    /// full login with the built-in group through the real server and the real client
+    Builtin { user: &'static str, pass: &'static str, salt: u8 },
+    /// real client only, against an announced group (g, index into common::moduli())
+    Group { g: u8, modulus: usize },
+}
+
+/// Every sequence of 2 (quick) / 3 (thorough) logins over an alphabet of 8 built-in-group logins
+/// ({alice,bob} x {pw1,pw2} x {salt1,salt2}) and 3 announced-group client logins, each sequence
+/// executed back to back on one thread.
+fn login_sequences(report: &Report, o: Oracle, cl: &Classes, tier: Tier, seed: u64) -> u64 {
+    use mc::util::catch;
+    use wow_srp::client::SrpClientChallenge;
+    use wow_srp::PublicKey;
+    let mut alphabet: Vec<Step> = vec![];
+    for user in ["alice", "bob"] {
+        for pass in ["password1", "password2"] {
+            for salt in [1u8, 2] {
+                alphabet.push(Step::Builtin { user, pass, salt });
+            }
+        }
+    }
+    // announced groups: (7, 2^255-19), (3, built-in N), (7, 2^127-1)
+    alphabet.push(Step::Group { g: 7, modulus: 1 });
+    alphabet.push(Step::Group { g: 3, modulus: 0 });
+    alphabet.push(Step::Group { g: 7, modulus: 4 });
+    let len = tier.pick(2usize, 3usize);
+    let n = alphabet.len();
+    let total = n.pow(len as u32);
+    let mods = moduli();
+    (0..total).into_par_iter().for_each(|idx| {
+        let mut rest = idx;
+        let mut seq = vec![];
+        for _ in 0..len {
+            seq.push(alphabet[rest % n].clone());
+            rest /= n;
+        }
+        for (pos, step) in seq.iter().enumerate() {
+            let tag = format!("seq-{idx}-{pos}");
+            match step {
+                Step::Builtin { user, pass, salt } => {
+                    let case = Case {
+                        layer: "login-sequence",
+                        reg_user: user.to_string(),
+                        reg_pass: pass.to_string(),
+                        typed_user: user.to_string(),
+                        typed_pass: pass.to_string(),
+                        salt: [*salt; 32],
+                        b: refmodel::ctr_array::<32>(seed, &format!("{tag}-b")),
+                        a: refmodel::ctr_array::<32>(seed, &format!("{tag}-a")),
+                    };
+                    let before = report.violation_count();
+                    run_case(report, o, cl, &case, false, false);
+                    if report.violation_count() != before {
+                        report.sample("failing-login-sequence", json!({"sequence_index": idx, "position": pos, "steps": seq.iter().map(step_json).collect::<Vec<_>>()}));
+                        return;
+                    }
+                }
+                Step::Group { g, modulus } => {
+                    let (mname, m) = &mods[*modulus];
+                    let m_le = m.to_le_padded::<32>();
+                    let a = refmodel::ctr_array::<32>(seed, &format!("{tag}-ga"));
+                    let salt = [3u8; 32];
+                    let bpub = le32_from_u64(1234567);
+                    let bk = PublicKey::from_le_bytes(bpub).unwrap();
+                    let (r, _, _) = with_script(&a, || {
+                        let c = SrpClientChallenge::new(ns("alice"), ns("password1"), *g, m_le, bk, salt);
+                        (*c.client_public_key(), *c.client_proof())
+                    });
+                    if o == Oracle::C03 {
+                        let aa = refmodel::big::U::from_le_bytes(&a);
+                        let want_a = srp::client_public(&aa, *g, m).to_le_padded::<32>();
+                        let x = refmodel::big::U::from_le_bytes(&srp::x_bytes(b"ALICE", b"PASSWORD1", &salt));
+                        let u = refmodel::big::U::from_le_bytes(&srp::u_bytes(&want_a, &bpub));
+                        let s = srp::client_s(&refmodel::big::U::from_le_bytes(&bpub), &x, &aa, &u, *g, m).to_le_padded::<32>();
+                        if let Some(k) = srp::interleave(&s) {
+                            let want_m1 = srp::m1(b"ALICE", &salt, &want_a, &bpub, &k, *g, &m_le);
+                            match &r {
+                                Ok((ap, m1)) => {
+                                    if *ap != want_a || *m1 != want_m1 {
+                                        report.violation(Violation {
+                                            signature: "C03|login-sequence|announced-group-client-values".into(),
+                                            scenario: "login-sequence".into(),
+                                            replay: json!({"sequence_index": idx, "position": pos, "steps": seq.iter().map(step_json).collect::<Vec<_>>(), "seed": seed}),
+                                            detail: json!({"message": format!("after the preceding logins on this thread the client's values for g={g}, modulus {mname} are A={} M1={}, reference A={} M1={}", hex(ap), hex(m1), hex(&want_a), hex(&want_m1))}),
+                                        });
+                                        return;
+                                    }
+                                }
+                                Err(m) => {
+                                    report.violation(Violation {
+                                        signature: "C03|login-sequence|announced-group-panic".into(),
+                                        scenario: "login-sequence".into(),
+                                        replay: json!({"sequence_index": idx, "position": pos, "steps": seq.iter().map(step_json).collect::<Vec<_>>()}),
+                                        detail: json!({"message": format!("client panicked: {m}")}),
+                                    });
+                                    return;
+                                }
+                            }
+                        }
+                    }
+                    let _ = catch(|| ());
+                }
+            }
+        }
+    });
+    total as u64
+}
+
+fn step_json(s: &Step) -> serde_json::Value {
+    match s {
+        Step::Builtin { user, pass, salt } => json!({"builtin_group_login": [user, pass], "salt_byte": salt}),
+        Step::Group { g, modulus } => json!({"announced_group_client_login": {"g": g, "modulus_index": modulus}}),
+    }
 }
